@@ -625,6 +625,7 @@ func (b *pipeBackend) ServeHTTP(w http.ResponseWriter, r *http.Request) {
 	rec.calls++
 	rec.method = r.Method
 	rec.path = r.URL.Path
+	rec.wirePath = r.URL.EscapedPath()
 	rec.rawQuery = r.URL.RawQuery
 	rec.proto = r.Proto
 	rec.protoMajor = r.ProtoMajor
